@@ -349,6 +349,10 @@ def canon_schedules():
             k.relay("Ack", "A", first, ph, ack=["ok2", "ok1"], canon=True)      # the honest list reversed
             k.relay("Ack", "A", first, ph, ack=["ok1"], canon=True)             # truncated
             k.relay("Ack", "A", first, ph, ack=["SENTINEL"], canon=True)
+        # the genuine acknowledgement and proof, but forged packet fields: must be rejected
+        good = (["ok"] if first["proto"] == "v1" else [d if d in ("ok1", "ok2") else "ok" for d in first["data"]])
+        k.relay("Ack", "A", dict(first, data=["fail"] + first["data"][1:]), ph, ack=good, canon=True)
+        k.relay("Ack", "A", dict(first, toT=first["toT"] + 1), ph, ack=good, canon=True)
         if kind == "ORDERED":
             k.relay("Ack", "A", pk[1], ph, ack=["err"], canon=True)             # successor's ack first: must be rejected
         for p in pk:
